@@ -2,7 +2,9 @@ package drv
 
 import (
 	"fmt"
+	"strings"
 
+	"github.com/ostafen/clover/v2/document"
 	"github.com/ostafen/clover/v2/query"
 	"verif/m"
 )
@@ -10,12 +12,50 @@ import (
 type qSnapshot struct {
 	coll        string
 	crit        query.Criteria
+	deep        string
 	skip, limit int
 	sort        string
 }
 
 func snapQ(q *query.Query) qSnapshot {
-	return qSnapshot{coll: q.Collection(), crit: q.Criteria(), skip: q.GetSkip(), limit: q.GetLimit(), sort: fmt.Sprint(q.SortOptions())}
+	return qSnapshot{coll: q.Collection(), crit: q.Criteria(), deep: RenderCriteria(q.Criteria()), skip: q.GetSkip(), limit: q.GetLimit(), sort: fmt.Sprint(q.SortOptions())}
+}
+
+// critRenderer serialises a criteria tree completely: operators, fields and every operand with its Go type, so that a
+// change anywhere inside the tree (for instance an operand list rewritten in place) is visible.
+type critRenderer struct{}
+
+func (critRenderer) VisitUnaryCriteria(c *query.UnaryCriteria) interface{} {
+	if vals, ok := c.Value.([]interface{}); ok {
+		parts := make([]string, len(vals))
+		for i, v := range vals {
+			parts[i] = fmt.Sprintf("%T:%v", v, v)
+		}
+		return fmt.Sprintf("(%d %q [%s])", c.OpType, c.Field, strings.Join(parts, " "))
+	}
+	if c.OpType == query.FunctionOp {
+		return fmt.Sprintf("(%d func)", c.OpType)
+	}
+	return fmt.Sprintf("(%d %q %T:%v)", c.OpType, c.Field, c.Value, c.Value)
+}
+func (r critRenderer) VisitNotCriteria(c *query.NotCriteria) interface{} {
+	return fmt.Sprintf("not%v", c.C.Accept(r))
+}
+func (r critRenderer) VisitBinaryCriteria(c *query.BinaryCriteria) interface{} {
+	return fmt.Sprintf("(%v %d %v)", c.C1.Accept(r), c.OpType, c.C2.Accept(r))
+}
+
+// RenderCriteria returns the complete textual form of a criteria tree ("" for nil).
+func RenderCriteria(c query.Criteria) (out string) {
+	if c == nil {
+		return ""
+	}
+	defer func() {
+		if p := recover(); p != nil {
+			out = fmt.Sprintf("unrenderable: %v", p)
+		}
+	}()
+	return fmt.Sprint(c.Accept(critRenderer{}))
 }
 
 // Derived checks Count / Exists / FindFirst / ForEach (every stop position) against the implementation's own
@@ -133,4 +173,57 @@ func Derived(in *Inst, q *m.Q, checkState bool) (out []Finding, evals int) {
 		}
 	}
 	return out, evals
+}
+
+// BuilderImmutability: no query or criteria builder method may alter the object it is called on.
+func BuilderImmutability() (out []Finding, evals int) {
+	c1 := query.Field("x").Gt(1)
+	c2 := query.Field("y").In("a", 2)
+	render := func(c query.Criteria) string { return fmt.Sprintf("%#v", c) }
+	base := query.NewQuery("a").Where(c1).Skip(2).Limit(5).Sort(query.SortOption{Field: "x", Direction: -1}, query.SortOption{Field: "y", Direction: 1})
+	snap := func(q *query.Query) string {
+		return fmt.Sprintf("%s|%p|%s|%d|%d|%v", q.Collection(), q.Criteria(), render(q.Criteria()), q.GetSkip(), q.GetLimit(), q.SortOptions())
+	}
+	s0, r1, r2 := snap(base), render(c1), render(c2)
+	check := func(what string) {
+		evals++
+		if s := snap(base); s != s0 {
+			out = append(out, fnd("derived", "%s modified the query it was called on: %s -> %s", what, s0, s))
+			s0 = s
+		}
+		if render(c1) != r1 || render(c2) != r2 {
+			out = append(out, fnd("derived", "%s modified a criteria operand", what))
+			r1, r2 = render(c1), render(c2)
+		}
+	}
+	opts := []query.SortOption{{Field: "z", Direction: 0}, {Field: "w", Direction: -3}}
+	steps := map[string]func(){
+		"Where": func() { base.Where(c2) }, "Skip": func() { base.Skip(7) }, "Skip(-1)": func() { base.Skip(-1) }, "Limit": func() { base.Limit(1) }, "Limit(-1)": func() { base.Limit(-1) },
+		"Sort()": func() { base.Sort() }, "Sort(opts)": func() { base.Sort(opts...) }, "MatchFunc": func() { base.MatchFunc(func(*document.Document) bool { return true }) },
+		"And": func() { c1.And(c2) }, "Or": func() { c1.Or(c2) }, "Not": func() { c1.Not(); c2.Not() }, "And.Not": func() { c1.And(c2).Not().Or(c1) },
+		"chain": func() { base.Where(c1.And(c2)).Skip(1).Limit(2).Sort() },
+	}
+	for name, f := range steps {
+		func() {
+			defer func() {
+				if p := recover(); p != nil {
+					out = append(out, fnd("panic", "builder %s panicked: %v", name, p))
+				}
+			}()
+			f()
+		}()
+		check(name)
+	}
+	// the option slice handed to Sort belongs to the caller: normalisation must not write into it
+	if opts[0].Direction != 0 || opts[1].Direction != -3 {
+		out = append(out, fnd("derived", "Sort modified the caller's option slice: %v", opts))
+	}
+	// derived queries are independent of each other
+	q1 := base.Skip(1)
+	q2 := q1.Limit(9)
+	q3 := q1.Sort()
+	if q1.GetLimit() != 5 || q2.GetSkip() != 1 || len(q1.SortOptions()) != 2 || len(q3.SortOptions()) != 1 || base.GetSkip() != 2 {
+		out = append(out, fnd("derived", "queries derived from one another share state"))
+	}
+	return out, evals + 3
 }
